@@ -88,3 +88,26 @@ fn k_vertex_type_size_used() {
     assert!(get_vertex_type_size(VertexType::UnsignedShort4) == 8, "ushort4 size");
     kani::cover!(true, "reachable");
 }
+
+//@unit props=C06 label=S tier=parked fn=model_vertex_declarations::vertex_element_parser bound="probe: fully concrete 16-element declaration"
+//@desc probe
+#[kani::proof]
+#[kani::unwind(20)]
+#[kani::stub(alloc::fmt::format, stub_fmt)]
+fn k_vertex_declaration_parser_16_concrete() {
+    let mut buf = [0u8; 136];
+    let mut k = 0;
+    while k < 16 { buf[8 * k] = (k % 3) as u8; buf[8 * k + 1] = k as u8; buf[8 * k + 2] = 14; buf[8 * k + 3] = (k % 8) as u8; buf[8 * k + 4] = k as u8; k += 1; }
+    buf[128] = 0xFF;
+    let mut r = Cursor::new(&buf[..]);
+    match vertex_element_parser(&mut r, binrw::Endian::Little, (1,)) {
+        Ok(d) => {
+            assert!(d.len() == 1 && d[0].elements.len() == 16, "all sixteen elements of a full declaration are returned");
+            assert!(d[0].elements[15].offset == 15 && d[0].elements[15].usage_index == 15, "the sixteenth element is the stored one");
+            assert!(r.position() == 17 * 8, "parser consumes the 17 slots");
+            core::mem::forget(d);
+        }
+        Err(e) => { core::mem::forget(e); assert!(false, "parse"); }
+    }
+    kani::cover!(true, "reachable");
+}
